@@ -39,8 +39,9 @@ ROT = 20.0
 
 
 def eps(v, p):
-    """DESIGN section 3, alphabet R: 1e-9 * (|value| + pixel size), world units."""
-    return E9 * (abs(v) + p)
+    """Room for the implementation's own binary64 rounding of a coordinate v on a grid of pixel size p: 16 ulp of the
+    coordinate plus 1e-9 pixel (NOT 1e-9*|v|, which at 5e6 m is 5 mm - whole pixels of a sub-metre grid)."""
+    return 16 * Fr(math.ulp(float(abs(v)))) + E9 * p
 
 
 # ---------------------------------------------------------------------------------------------
@@ -82,9 +83,32 @@ def kind_epsg(kind, loc):
     """-> CRS id: an EPSG code (int) or, for the kinds without one, the PROJ string"""
     if kind in NOEPSG:
         return NOEPSG[kind]
+    if kind.startswith("stale:"):
+        return stale_wkt(kind_epsg(kind[6:], loc))
     _, _, utm, ea = LOCS[loc]
     # utmn: the UTM zone east of the location's own (a raster at the location lies outside its area of use)
     return {"deg": 4326, "merc": 3857, "ea": ea, "utmz": utm, "utmn": utm + 1, "cea": 6933, "deg2": DEG2.get(loc)}[kind]
+
+
+_STALE = {}
+
+
+def stale_wkt(code):
+    """WKT2 of EPSG:code with its false easting moved by 250 km while the trailing ID["EPSG",code] is left in place: a
+    DIFFERENT CRS carrying a stale identifier (pyproj's own to_epsg() is None for it)"""
+    w = _STALE.get(code)
+    if w is None:
+        import re  # pylint: disable=import-outside-toplevel
+
+        base = pyproj.CRS.from_epsg(code)
+        txt = base.to_wkt()
+        w, n = re.subn(r'(PARAMETER\["(?:False easting|Easting at false origin)",)(-?[0-9.]+)', lambda m: m.group(1) + repr(float(m.group(2)) + 250000.0),
+                       txt, count=1)
+        c = pyproj.CRS.from_wkt(w)
+        if n != 1 or f'ID["EPSG",{code}]]' not in w[-40:] or c.to_epsg() is not None or c == base:
+            raise RuntimeError(f"alphabet error: cannot build a stale-id WKT from EPSG:{code}")
+        _STALE[code] = w
+    return w
 
 
 def crs_spec(cid):
@@ -137,7 +161,19 @@ def area_of_use(epsg):
 # the source raster: six affine coefficients made here, pixel sample sets, projected extents
 # ---------------------------------------------------------------------------------------------
 class Src:
-    __slots__ = ("key", "epsg", "kind", "orient", "extent", "shape", "p", "coef", "gbox", "_memo")
+    # buf: footprint buffer in pixels along (u, v); unset = (BUF, BUF) (square pixels)
+    __slots__ = ("key", "epsg", "kind", "orient", "extent", "shape", "p", "coef", "gbox", "_memo", "buf")
+
+
+def fresh_instance(t: "Src") -> "Src":
+    """the same raster as a NEW GeoBox object (no lazily filled state from earlier cases); oracle facts are shared"""
+    s = Src()
+    s.key, s.epsg, s.kind, s.orient, s.extent, s.shape, s.p, s.coef, s._memo = (
+        t.key, t.epsg, t.kind, t.orient, t.extent, t.shape, t.p, t.coef, t._memo)
+    if hasattr(t, "buf"):
+        s.buf = t.buf
+    s.gbox = GeoBox(s.shape, Affine(*s.coef), crs_spec(s.epsg))
+    return s
 
 
 _SRC = {}
@@ -147,7 +183,7 @@ def make_src(kind, loc, extent, shape, orient):
     key = (kind, loc, extent, shape, orient)
     s = _SRC.get(key)
     if s is not None:
-        return s
+        return fresh_instance(s)
     lon, lat, _, _ = LOCS[loc]
     epsg = kind_epsg(kind, loc)
     ny, nx = shape
@@ -178,7 +214,7 @@ def make_src(kind, loc, extent, shape, orient):
     if len(_SRC) > 64:
         _SRC.clear()
     _SRC[key] = s
-    return s
+    return fresh_instance(s)
 
 
 _PX = {}
@@ -215,18 +251,18 @@ def px_samples(ny, nx):
     return got
 
 
-def px_buffered(ny, nx):
-    """pixel coordinates of points on the outline of the raster grown by BUF pixels (square pixels:
-    straight offset sides and circles of radius BUF about the four corners)."""
-    m = max(64, 4 * max(nx, ny))
+def px_buffered(ny, nx, bu=BUF, bv=BUF):
+    """pixel coordinates of points on the outline of the raster grown by the footprint buffer: a distance in world units,
+    i.e. (bu, bv) pixels along the two pixel axes (straight offset sides, ellipses about the four corners)."""
+    m = min(max(64, 4 * max(nx, ny)), 8192)
     su = np.linspace(0.0, nx, m + 1)
     sv = np.linspace(0.0, ny, m + 1)
     ang = np.linspace(0.0, 2 * math.pi, 96, endpoint=False)
-    U = [su, su, np.full_like(sv, -BUF), np.full_like(sv, nx + BUF)]
-    V = [np.full_like(su, -BUF), np.full_like(su, ny + BUF), sv, sv]
+    U = [su, su, np.full_like(sv, -bu), np.full_like(sv, nx + bu)]
+    V = [np.full_like(su, -bv), np.full_like(su, ny + bv), sv, sv]
     for cu, cv in ((0, 0), (nx, 0), (0, ny), (nx, ny)):
-        U.append(cu + BUF * np.cos(ang))
-        V.append(cv + BUF * np.sin(ang))
+        U.append(cu + bu * np.cos(ang))
+        V.append(cv + bv * np.sin(ang))
     return np.concatenate(U), np.concatenate(V)
 
 
@@ -275,11 +311,16 @@ def facts(S: Src, dst):
     out["inside"] = inside
     if out["finite"]:
         out["F"] = _bbox(PX, PY)
-        bu, bv = px_buffered(ny, nx)
-        BX, BY = t.transform(*to_world(S.coef, bu, bv))
+        bu, bv = px_buffered(ny, nx, *getattr(S, "buf", (BUF, BUF)))
+        wX, wY = to_world(S.coef, bu, bv)
+        BX, BY = t.transform(wX, wY)
         BX, BY = np.asarray(BX), np.asarray(BY)
         ok = np.isfinite(BX) & np.isfinite(BY)
         fb = _bbox(BX[ok], BY[ok]) if ok.all() else None
+        if unit_class(S.epsg) == "degree" and ((np.abs(wX) > 180).any() or (np.abs(wY) > 90).any()):
+            # the buffer leaves the lon/lat domain (wraps at the antimeridian / passes a pole): where its image lies depends
+            # on how the outline is sampled - no buffered reference; containment of the raster itself is still judged
+            fb = None
         if fb is not None:
             f_ = out["F"]
             fb = (min(fb[0], f_[0]), min(fb[1], f_[1]), max(fb[2], f_[2]), max(fb[3], f_[3]))
@@ -322,6 +363,8 @@ def anchor_arg(enc):
         return xy_(ax, ay), (ax, ay), "xy"
     if enc == "default":
         return "default", (0.0, 0.0), "default"
+    if enc == "edge":
+        return "edge", (0.0, 0.0), "edge"
     if enc == "center":
         return "center", (0.5, 0.5), "center"
     if enc == "floating":
@@ -334,6 +377,8 @@ def dst_arg_of(enc, S: Src, loc):
     """-> (value for crs=, expected EPSG or None for the utm spellings, class)"""
     if enc in UTM_ARGS:
         return enc, None, enc
+    if isinstance(enc, int):
+        return f"epsg:{enc}", enc, f"epsg{enc}"
     kind, _, form = enc.partition("@")
     code = kind_epsg(kind, loc)
     if form == "wkt":  # another spelling of the same CRS: its WKT2 text
@@ -380,8 +425,10 @@ def clause_utm(r, kk, dst_enc, dst, ll_of, what):
     ll = ll_of()
     w, s_, e_, n_ = area_of_use(dst)
     if ll is not None:
-        lon_ok = ll[0] <= e_ and w <= ll[2]
-        lat_ok = ll[1] <= n_ and s_ <= ll[3]
+        # overlap = a common part of positive size (touching along a zone edge is not overlap) unless the raster itself
+        # has no extent in that direction
+        lon_ok = (ll[0] < e_ and w < ll[2]) or (ll[0] == ll[2] and w <= ll[0] <= e_)
+        lat_ok = (ll[1] < n_ and s_ < ll[3]) or (ll[1] == ll[3] and s_ <= ll[1] <= n_)
         if not lon_ok:
             r.fail(f"utm:zone-misses-raster:{kk}",
                    f"{what}: resolved to EPSG:{dst} (lon {w}..{e_}) but the raster spans lon {ll[0]:.6g}..{ll[2]:.6g}")
@@ -511,10 +558,10 @@ def judge(r, S: Src, loc, dst_enc, req, aenc, tight, tol, g, what):
         if (A.a, A.e) != want:
             r.fail(f"resolution:not-as-requested:{kk}", f"{what}: pixel size ({A.a!r}, {A.e!r}), requested {want!r}")
 
-    if not fx["finite"] or fx.get("Fb") is None:
+    if not fx["finite"]:
         r.outcome = f"{res_label}:oracle-nonfinite"
         return
-    F, Fb = fx["F"], fx["Fb"]
+    F, Fb = fx["F"], fx.get("Fb")
     sg = fx.get("sigma")
     s_px = Fr(sg[1]) if sg is not None else Fr(0)
 
@@ -524,6 +571,9 @@ def judge(r, S: Src, loc, dst_enc, req, aenc, tight, tol, g, what):
         return max(P, s_px) / 1000
 
     # -- shape-driven requests ------------------------------------------------------------------
+    if mode in ("shape-tuple", "shape-int") and Fb is None:
+        r.outcome = ":".join(labels + [mode, "no-buffered-reference"])
+        return
     if mode in ("shape-tuple", "shape-int"):
         r.nontrivial = True
         spanF = (Fr(F[2]) - Fr(F[0]), Fr(F[3]) - Fr(F[1]))
@@ -623,8 +673,8 @@ def judge(r, S: Src, loc, dst_enc, req, aenc, tight, tol, g, what):
         al = a1 if a1 == a2 else f"{a1}/{a2}"
     else:
         # snapping off: the grid starts on the edge of the (buffered) projected footprint, it is not moved
-        al = "tight"
-        for ax, org, low_side, P, j in (("x", Cx, A.a > 0, Px, 0), ("y", Cy, A.e > 0, Py, 1)):
+        al = "tight" if Fb is not None else "tight:no-buffered-reference"
+        for ax, org, low_side, P, j in ((("x", Cx, A.a > 0, Px, 0), ("y", Cy, A.e > 0, Py, 1)) if Fb is not None else ()):
             sl = slack(P)
             if low_side:
                 f_, b_ = Fr(F[j]), Fr(Fb[j])
@@ -642,6 +692,8 @@ def judge(r, S: Src, loc, dst_enc, req, aenc, tight, tol, g, what):
 
 def res_value(enc, S: Src, dst_units):
     """explicit resolution: -> (value for resolution=, expected (rx, ry))"""
+    if enc[0] == "abs":
+        return enc[1], (enc[1], -enc[1])
     nom = nominal_px(S, dst_units)
     if enc[0] == "s":
         v = enc[1] * nom
@@ -1123,6 +1175,437 @@ def run_sweep(case):
     return r
 
 
+# ---------------------------------------------------------------------------------------------
+# generic request helper for the slices below
+# ---------------------------------------------------------------------------------------------
+def make_kw(S, loc, dst_enc, req, aenc, tight, tol):
+    """-> (crs argument, expected CRS id or None, keyword arguments in their plain spelling)"""
+    crs_arg, want, _ = dst_arg_of(dst_enc, S, loc)
+    kw = {}
+    if aenc != "default":
+        kw["anchor"] = anchor_arg(aenc)[0]
+    if tight:
+        kw["tight"] = True
+    if tol != 0.01:
+        kw["tol"] = tol
+    if req[0] == "shape":
+        kw["shape"] = req[1]
+    elif isinstance(req[1], str):
+        if req[1] != "auto":
+            kw["resolution"] = req[1]
+    else:
+        kw["resolution"] = res_value(req[1], S, unit_class(want))[0]
+    return crs_arg, want, kw
+
+
+def call_txt(api, S, crs_arg, kw, src_txt=None):
+    src = src_txt or f"GeoBox({S.shape}, Affine{S.coef}, {crs_spec(S.epsg) if len(str(S.epsg)) < 90 else '<stale-id WKT>'!r})"
+    c = repr(crs_arg) if isinstance(crs_arg, (str, int)) and len(str(crs_arg)) < 90 else f"<{type(crs_arg).__name__}>"
+    a = ", ".join(f"{k}={v!r}" for k, v in kw.items())
+    return {"cog": f"compute_output_geobox({src}, {c}, {a})", "to_crs": f"{src}.to_crs({c}, {a})",
+            "xr": f"xr_zeros({src}).odc.output_geobox({c}, {a})"}[api]
+
+
+def call_api(api, gbox, crs_arg, kw):
+    if api == "cog":
+        return compute_output_geobox(gbox, crs_arg, **kw)
+    if api == "to_crs":
+        return gbox.to_crs(crs_arg, **kw)
+    raise ValueError(api)
+
+
+def same_answer(g1, src1, g0, src0):
+    """identical grids; 'the source itself came back' on one side must be 'the source itself came back' on the other"""
+    if (g1 is src1) != (g0 is src0):
+        return False
+    return same_grid(g1, g0) if g1 is not src1 else True
+
+
+# ---------------------------------------------------------------------------------------------
+# unusual rasters: tiny / huge / non-square pixels, portrait and very long thin rasters, origin phases
+# ---------------------------------------------------------------------------------------------
+# name -> ((rx, ry) in degrees, (rx, ry) in metres, shape)
+ODD = {
+    "tiny": ((4.5e-6, 4.5e-6), (0.5, 0.5), (48, 64)),
+    "huge": ((1.0, 1.0), (1.0e5, 1.0e5), (6, 8)),
+    "wide-px": ((3e-4, 1e-4), (30.0, 10.0), (64, 48)),
+    "tall-px": ((1e-4, 3e-4), (10.0, 30.0), (48, 64)),
+    "thin-row": ((1e-4, 1e-4), (10.0, 10.0), (2, 20000)),
+    "thin-col": ((1e-4, 1e-4), (10.0, 10.0), (20000, 2)),
+    "portrait": ((1e-4, 1e-4), (10.0, 10.0), (200, 3)),
+}
+# origin = a whole number of CRS units + phase: exactly whole, a millimetre (1e-3 unit) either side, half a pixel, odd fraction
+PHASES = ("whole", "+1e-3", "-1e-3", "half", "frac")
+
+
+def odd_src(odd, kind, loc, orient, phase):
+    epsg = kind_epsg(kind, loc)
+    lon, lat = LOCS[loc][:2]
+    geographic = unit_class(epsg) == "degree"
+    (rx, ry), shape = ODD[odd][0 if geographic else 1], ODD[odd][2]
+    ny, nx = shape
+    cx, cy = (lon, lat) if geographic else fresh(4326, epsg).transform(lon, lat)
+    dx, dy = {"whole": (0.0, 0.0), "+1e-3": (1e-3, -1e-3), "-1e-3": (-1e-3, 1e-3), "half": (rx / 2, ry / 2),
+              "frac": (0.37 * rx, 0.61 * ry)}[phase]
+    x0, y1 = float(round(cx)) + dx, float(round(cy)) + dy
+    if orient == "nu":
+        A = Affine(rx, 0.0, x0, 0.0, -ry, y1)
+    elif orient == "mx":
+        A = Affine(-rx, 0.0, x0 + nx * rx, 0.0, -ry, y1)
+    elif orient == "su":
+        A = Affine(rx, 0.0, x0, 0.0, ry, y1 - ny * ry)
+    elif orient == "r180":
+        A = Affine(-rx, 0.0, x0 + nx * rx, 0.0, ry, y1 - ny * ry)
+    else:
+        A = Affine.translation(x0, y1) * Affine.rotation(ROT) * Affine.scale(rx, -ry)
+    S = Src()
+    S.key, S.epsg, S.kind, S.orient, S.extent, S.shape, S.p = (odd, kind, loc, orient, phase), epsg, kind, orient, odd, shape, rx
+    S.coef = tuple(float(v) for v in tuple(A)[:6])
+    B = BUF * max(rx, ry)  # the buffer is a distance: 0.9 of the LARGER pixel side
+    S.buf = (B / rx, B / ry)
+    S._memo = _ODD_MEMO.setdefault(S.key, {})
+    if len(_ODD_MEMO) > 32:
+        _ODD_MEMO.clear()
+    S.gbox = GeoBox(shape, Affine(*S.coef), crs_spec(epsg))
+    return S
+
+
+_ODD_MEMO = {}
+
+
+def gen_odd(tier):
+    t = tier == "thorough"
+    reqs = (("res", "auto"), ("res", "fit"), ("shape", 50))
+    yield from itertools.product(tuple(ODD), ("nu", "rot"), SRC_KINDS, ("eu",) + (("au",) if t else ()), ("whole",), DST4,
+                                 reqs + ((("res", "same"), ("shape", (7, 40))) if t else ()), ("default",), TIGHT, (0.01,))
+    yield from itertools.product(("tiny", "wide-px") + (("tall-px", "portrait", "huge") if t else ()),
+                                 ("nu", "mx", "su", "r180") + (("rot",) if t else ()), ("deg", "utmz") + (("merc",) if t else ()),
+                                 ("eu",), PHASES, DST4, (("res", "auto"), ("res", "same"), ("res", ("s", 1.0))),
+                                 ("default", "center"), (False,), (0.01,) + ((0.0,) if t else ()))
+
+
+def run_odd(case):
+    odd, orient, kind, loc, phase, dst_enc, req, aenc, tight, tol = case
+    S = odd_src(odd, kind, loc, orient, phase)
+    crs_arg, _, kw = make_kw(S, loc, dst_enc, req, aenc, tight, tol)
+    r = R()
+    g = compute_output_geobox(S.gbox, crs_arg, **kw)
+    judge(r, S, loc, dst_enc, req, aenc, tight, tol, g, call_txt("cog", S, crs_arg, kw))
+    r.outcome = f"{odd}:{phase}:" + r.outcome
+    return r
+
+
+# ---------------------------------------------------------------------------------------------
+# rasters touching the limits of a CRS's area of use
+# ---------------------------------------------------------------------------------------------
+# name -> (lon0, lat0, lon1, lat1, shape, targets)
+LIMITS = {
+    "zone-east-edge": (17.0, 45.0, 18.0, 46.0, (32, 32), (32633, "utm", 3857, 3035)),
+    "zone-west-edge": (12.0, 45.0, 13.0, 46.0, (32, 32), (32633, "utm", 3857, 3035)),
+    "zone-full-width": (12.0, 40.0, 18.0, 44.0, (32, 48), (32633, "utm", "utm-n", 3857)),
+    "lat-84": (13.0, 83.0, 17.0, 84.0, (16, 64), (32633, "utm", 3857, 3035)),
+    "equator-from-north": (14.0, 0.0, 16.0, 2.0, (32, 32), (32633, "utm", "utm-n", "utm-s", 6933)),
+    "equator-from-south": (14.0, -2.0, 16.0, 0.0, (32, 32), (32733, "utm", "utm-n", "utm-s", 6933)),
+    "lat-minus-80": (14.0, -80.0, 16.0, -79.0, (16, 32), (32733, "utm", 3857)),
+    "antimeridian-from-west": (174.0, 10.0, 180.0, 16.0, (32, 32), (32660, "utm", 3857, 6933)),
+    "antimeridian-from-east": (-180.0, 10.0, -174.0, 16.0, (32, 32), (32601, "utm", 3857, 6933)),
+    "mercator-north-limit": (10.0, 80.0, 20.0, 85.06, (32, 64), (3857, 3035)),
+    "ease-north-limit": (10.0, 80.0, 20.0, 86.0, (32, 48), (6933, 3857)),
+    "north-pole": (10.0, 80.0, 20.0, 90.0, (32, 32), (3857, 6933, 3035, 4326)),
+    "south-pole": (-70.0, -90.0, -60.0, -80.0, (32, 32), (3857, 6933, 4326)),
+    "whole-globe": (-180.0, -90.0, 180.0, 90.0, (32, 64), (3857, 6933, 4326)),
+}
+LIM_OPTS = ((("res", "auto"), "default", False), (("res", "fit"), "default", True), (("shape", 50), "default", False),
+            (("res", "auto"), "center", False))
+
+
+def gen_limits(tier):
+    t = tier == "thorough"
+    for name, (_, _, _, _, _, dsts) in LIMITS.items():
+        yield from itertools.product((name,), ("nu", "su") if t else ("nu",), dsts, LIM_OPTS)
+
+
+def run_limits(case):
+    name, orient, dst_enc, (req, aenc, tight) = case
+    lo0, la0, lo1, la1, shape, _ = LIMITS[name]
+    ny, nx = shape
+    rx, ry = (lo1 - lo0) / nx, (la1 - la0) / ny
+    A = Affine(rx, 0.0, lo0, 0.0, -ry, la1) if orient == "nu" else Affine(rx, 0.0, lo0, 0.0, ry, la0)
+    S = Src()
+    S.key, S.epsg, S.kind, S.orient, S.extent, S.shape, S.p = ("limit", name, orient), 4326, "deg", orient, f"limit:{name}", shape, rx
+    S.coef = tuple(float(v) for v in tuple(A)[:6])
+    B = BUF * max(rx, ry)
+    S.buf = (B / rx, B / ry)
+    S._memo = {}
+    S.gbox = GeoBox(shape, Affine(*S.coef), "epsg:4326")
+    crs_arg, want, kw = make_kw(S, "eu", dst_enc, req, aenc, tight, 0.01)
+    r = R()
+    inside = None if want is None else facts(S, want)["inside"]
+    what = call_txt("cog", S, crs_arg, kw)
+    try:
+        g = compute_output_geobox(S.gbox, crs_arg, **kw)
+    except Exception as e:  # pylint: disable=broad-except
+        if inside is False:
+            # part of the raster lies outside the target's area of use: the property makes no claim, recorded only
+            r.outcome, r.nontrivial = f"limit:{name}:outside-area:raised:{type(e).__name__}", False
+            return r
+        raise
+    judge(r, S, "eu", dst_enc, req, aenc, tight, 0.01, g, what)
+    r.outcome = f"limit:{name}:" + r.outcome
+    return r
+
+
+# ---------------------------------------------------------------------------------------------
+# the same request in other spellings, on every entry point
+# ---------------------------------------------------------------------------------------------
+SPELL_SRC = (("utmz", "eu", "tile", (48, 64), "nu"), ("deg", "au", "tile", (48, 64), "rot"), ("merc", "sa", "regional", (32, 32), "nu"))
+SPELL_API = ("cog", "to_crs", "xr")
+# variant name -> judge encoding (req, anchor, tight, tol) of the request it spells
+SPELL = {
+    # target CRS
+    "crs:int": (("res", "auto"), "default", False, 0.01), "crs:EPSG-upper": (("res", "auto"), "default", False, 0.01),
+    "crs:Epsg-mixed": (("res", "auto"), "default", False, 0.01), "crs:pyproj": (("res", "auto"), "default", False, 0.01),
+    "crs:odc-CRS": (("res", "auto"), "default", False, 0.01), "crs:wkt2": (("res", "auto"), "default", False, 0.01),
+    "crs:projjson-text": (("res", "auto"), "default", False, 0.01), "crs:projjson-dict": (("res", "auto"), "default", False, 0.01),
+    "crs:wkt2+fit": (("res", "fit"), "center", False, 0.01), "crs:pyproj+shape": (("shape", 50), "default", True, 0.01),
+    # source CRS
+    "src:int": (("res", "auto"), "default", False, 0.01), "src:pyproj": (("res", "auto"), "default", False, 0.01),
+    "src:odc-CRS": (("res", "auto"), "default", False, 0.01), "src:wkt2": (("res", "auto"), "default", False, 0.01),
+    "src:projjson-dict": (("res", "auto"), "default", False, 0.01), "src:wkt2+same": (("res", "same"), "center", False, 0.01),
+    # explicit resolution
+    "res:int": (("res", ("s", 2.0)), "default", False, 0.01), "res:np.float64": (("res", ("s", 2.0)), "default", False, 0.01),
+    "res:Resolution": (("res", ("s", 2.0)), "default", False, 0.01), "res:resxy": (("res", ("s", 2.0)), "default", False, 0.01),
+    "res:negative-int": (("res", ("s", -2.0)), "default", False, 0.01), "res:negative-np.float64": (("res", ("s", -2.0)), "center", False, 0.01),
+    # shape
+    "shape:list": (("shape", (10, 20)), "default", False, 0.01), "shape:Shape2d": (("shape", (10, 20)), "default", False, 0.01),
+    "shape:wh_": (("shape", (10, 20)), "center", False, 0.01), "shape:np-ints": (("shape", (10, 20)), "default", True, 0.01),
+    "shape:float": (("shape", 50), "default", False, 0.01), "shape:np.float64": (("shape", 50), "default", True, 0.01),
+    # anchor
+    "anchor:0": (("res", "auto"), "edge", False, 0.01), "anchor:0.0": (("res", "auto"), "edge", False, 0.01),
+    "anchor:EDGE": (("res", "auto"), "edge", False, 0.01), "anchor:xy00": (("res", "fit"), "edge", False, 0.01),
+    "anchor:np0": (("shape", (10, 20)), "edge", False, 0.01),
+    "anchor:centre": (("res", "auto"), "center", False, 0.01), "anchor:0.5": (("res", "auto"), "center", False, 0.01),
+    "anchor:CENTER": (("res", "fit"), "center", False, 0.01), "anchor:xy55": (("shape", 50), "center", False, 0.01),
+    "anchor:np.25": (("res", "auto"), 0.25, False, 0.01), "anchor:xy.25": (("res", "auto"), 0.25, False, 0.01),
+    "anchor:FLOATING": (("res", "auto"), "floating", False, 0.01), "anchor:FLOATING+shape": (("shape", 50), "floating", False, 0.01),
+    # tol
+    "tol:int0": (("res", ("s", 2.0)), "default", False, 0.0), "tol:np0": (("res", "auto"), "default", False, 0.0),
+    "tol:np.05": (("res", ("s", 2.0)), "center", False, 0.05),
+    # round_resolution
+    "round:False": (("res", "fit"), "default", False, 0.01), "round:None": (("res", "fit"), "default", False, 0.01),
+    "round:True": (("res", "fit"), "default", False, 0.01), "round:callable": (("res", "fit"), "default", False, 0.01),
+}
+
+
+def _spell_crs(form, cid):
+    from odc.geo.crs import CRS  # pylint: disable=import-outside-toplevel
+
+    pc = _new_pcrs(cid)
+    return {"int": lambda: cid, "EPSG-upper": lambda: f"EPSG:{cid}", "Epsg-mixed": lambda: f"Epsg:{cid}", "pyproj": lambda: pc,
+            "odc-CRS": lambda: CRS(f"epsg:{cid}"), "wkt2": pc.to_wkt, "wkt2+fit": pc.to_wkt, "wkt2+same": pc.to_wkt,
+            "pyproj+shape": lambda: pc, "projjson-text": pc.to_json, "projjson-dict": pc.to_json_dict}[form]()
+
+
+def gen_spell(tier):
+    t = tier == "thorough"
+    yield from itertools.product(SPELL_API, range(len(SPELL_SRC)) if t else (0, 1), DST4, tuple(SPELL))
+
+
+def run_spell(case):
+    from odc.geo.types import AnchorEnum, res_, shape_, wh_  # pylint: disable=import-outside-toplevel
+
+    api, si, dst_enc, var = case
+    kind, loc, extent, sshape, orient = SPELL_SRC[si]
+    S = make_src(kind, loc, extent, sshape, orient)
+    req, aenc, tight, tol = SPELL[var]
+    crs_arg, want, kw0 = make_kw(S, loc, dst_enc, req, aenc, tight, tol)
+    kw = dict(kw0)
+    dim, _, form = var.partition(":")
+    src_crs = crs_spec(S.epsg)
+    rnd = None
+    if dim == "crs":
+        crs_arg = _spell_crs(form, want)
+    elif dim == "src":
+        src_crs = _spell_crs(form, S.epsg)
+    elif dim == "res":
+        v = kw0["resolution"]
+        if "int" in form and abs(v) < 1:  # degrees: no whole-number pixel size of this magnitude; keep the float
+            form = "float"
+        kw["resolution"] = {"int": lambda: int(v), "negative-int": lambda: int(v), "float": lambda: float(v),
+                            "np.float64": lambda: np.float64(v), "negative-np.float64": lambda: np.float64(v),
+                            "Resolution": lambda: res_(v), "resxy": lambda: resxy_(v, -v)}[form]()
+        if "int" in form and int(v) != v:
+            raise ValueError(f"alphabet error: {v} is not a whole number")
+    elif dim == "shape":
+        v = kw0["shape"]
+        kw["shape"] = {"list": lambda: list(v), "Shape2d": lambda: shape_(v), "wh_": lambda: wh_(v[1], v[0]),
+                       "np-ints": lambda: (np.int64(v[0]), np.int32(v[1])), "float": lambda: float(v),
+                       "np.float64": lambda: np.float64(v)}[form]()
+    elif dim == "anchor":
+        if True:
+            kw["anchor"] = {"FLOATING+shape": AnchorEnum.FLOATING, "0": 0, "0.0": 0.0, "EDGE": AnchorEnum.EDGE, "xy00": xy_(0, 0), "np0": np.float64(0.0), "centre": "centre",
+                            "0.5": 0.5, "CENTER": AnchorEnum.CENTER, "xy55": xy_(0.5, 0.5), "np.25": np.float64(0.25),
+                            "xy.25": xy_(0.25, 0.25), "FLOATING": AnchorEnum.FLOATING}[form]
+    elif dim == "tol":
+        kw["tol"] = {"int0": 0, "np0": np.float64(0.0), "np.05": np.float32(0.05).astype("float64") * 0 + np.float64(0.05)}[form]
+    elif dim == "round":
+        rnd = form
+        if form in ("False", "None", "True"):
+            kw["round_resolution"] = {"False": False, "None": None, "True": True}[form]
+        else:
+            kw["round_resolution"] = _round_to_7
+    r = R()
+    # the plain spelling through the function, on a fresh object
+    g0 = compute_output_geobox(S.gbox, dst_arg_of(dst_enc, S, loc)[0], **kw0)
+    if rnd in ("True", "callable") and g0 is not S.gbox:
+        fit = g0.resolution.x
+        want_px = float(round(fit, 0)) if rnd == "True" else _round_to_7(fit, "")
+        if want_px <= 0:
+            r.outcome, r.nontrivial = f"spell:{api}:{var}:rounds-to-0", False  # degrees: a zero pixel size, nothing to demand
+            return r
+    src1 = GeoBox(S.shape, Affine(*S.coef), src_crs)
+    src_txt = None if dim != "src" else f"GeoBox({S.shape}, Affine{S.coef}, <{var}>)"
+    what = call_txt(api, S, crs_arg, kw, src_txt)
+    if api == "xr":
+        from odc.geo.xr import xr_zeros  # pylint: disable=import-outside-toplevel
+
+        xx = xr_zeros(src1, dtype="uint8")
+        src1 = xx.odc.geobox
+        if not isinstance(src1, GeoBox) or tuple(src1.shape) != tuple(S.shape) or tuple(src1.affine)[:6] != S.coef:
+            r.outcome, r.nontrivial = "spell:xr:registration-differs", False  # C09's subject
+            return r
+        g1 = xx.odc.output_geobox(crs_arg, **kw)
+    else:
+        g1 = call_api(api, src1, crs_arg, kw)
+    kk = f"{api}:{var}:{S.kind}->{dst_enc}"
+    if rnd in (None, "False", "None"):
+        S1 = fresh_instance(S)
+        S1.gbox = src1
+        judge(r, S1, loc, dst_enc, req, aenc, tight, tol, g1, what)
+        if not same_answer(g1, src1, g0, S.gbox):
+            r.fail(f"spelling-changes-answer:{kk}",
+                   f"{what} -> {g1!r}{' (the source itself)' if g1 is src1 else ''}, but the plain spelling "
+                   f"{call_txt('cog', S, dst_arg_of(dst_enc, S, loc)[0], kw0)} -> {g0!r}{' (the source itself)' if g0 is S.gbox else ''}")
+        r.outcome = f"spell:{api}:{var}:" + r.outcome.split(":")[0]
+        return r
+    # rounded fit: square, Y inverted, pixel = the rounding of the unrounded fit; and it still encloses etc.
+    r.nontrivial = True
+    if g0 is S.gbox or g1 is src1:
+        r.outcome = f"spell:{api}:{var}:own"
+        return r
+    if True:
+        if not (g1.resolution.x == want_px and g1.resolution.y == -want_px):
+            r.fail(f"round-resolution:{kk}", f"{what}: pixel size {g1.resolution}; unrounded fit {fit!r} rounds to {want_px!r}")
+        else:
+            S1 = fresh_instance(S)
+            S1.gbox = src1
+            jreq = ("res", ("abs", want_px))
+            judge(r, S1, loc, dst_enc, jreq, aenc, tight, tol, g1, what)
+        r.outcome = f"spell:{api}:{var}:rounded"
+    return r
+
+
+def _round_to_7(res, units):
+    """round_resolution callback: nearest multiple of 7 (the units argument must be a string)"""
+    if not isinstance(units, str):
+        raise TypeError(f"units={units!r}")
+    return 7.0 * round(res / 7.0)
+
+
+# ---------------------------------------------------------------------------------------------
+# lazily filled state: read / use the source GeoBox first, then ask; differential against a fresh object
+# ---------------------------------------------------------------------------------------------
+LAZY_SRC = (("utmz", "eu", "tile", (48, 64), "nu"), ("deg", "au", "regional", (32, 32), "rot"), ("merc", "sa", "tile", (32, 32), "mx"))
+PREOPS = ("extent", "boundingbox", "footprint-dst", "footprint-dst-buffered", "footprint-other", "footprint-utm",
+          "geographic_extent", "crs-epsg-str-hash", "center_pixel", "resolution-alignment", "to_crs-dst", "to_crs-other",
+          "to_crs-dst-other-options", "three-targets", "xarray", "views", "unpickled", "crs-helpers")
+
+
+def apply_preop(op, gb, crs_arg, other):
+    import pickle  # pylint: disable=import-outside-toplevel
+
+    from odc.geo.crs import CRS  # pylint: disable=import-outside-toplevel
+
+    if op == "extent":
+        _ = gb.extent.boundingbox
+    elif op == "boundingbox":
+        _ = gb.boundingbox, gb.boundingbox.polygon
+    elif op == "footprint-dst":
+        _ = gb.footprint(crs_arg)
+    elif op == "footprint-dst-buffered":
+        _ = gb.footprint(crs_arg, buffer=5, npoints=7)
+    elif op == "footprint-other":
+        _ = gb.footprint(other, buffer=0.9, npoints=100)
+    elif op == "footprint-utm":
+        _ = gb.footprint("utm", buffer=2)
+    elif op == "geographic_extent":
+        _ = gb.geographic_extent
+    elif op == "crs-epsg-str-hash":
+        _ = gb.crs.epsg, str(gb.crs), hash(gb.crs), hash(gb), gb.crs.units, gb.crs.to_wkt()
+    elif op == "center_pixel":
+        _ = gb.center_pixel.extent
+    elif op == "resolution-alignment":
+        _ = gb.resolution, gb.alignment, gb.aspect, gb.affine, gb.transform
+    elif op == "to_crs-dst":
+        _ = gb.to_crs(crs_arg)
+    elif op == "to_crs-other":
+        _ = gb.to_crs(other)
+    elif op == "to_crs-dst-other-options":
+        _ = gb.to_crs(crs_arg, shape=(7, 9), anchor="center", tight=False, tol=0.3)
+        _ = compute_output_geobox(gb, crs_arg, resolution="fit", tight=True)
+    elif op == "three-targets":
+        for c in ("epsg:4326", "epsg:3857", "epsg:6933"):
+            _ = compute_output_geobox(gb, c)
+    elif op == "xarray":
+        from odc.geo.xr import xr_zeros  # pylint: disable=import-outside-toplevel
+
+        xx = xr_zeros(gb, dtype="uint8")
+        _ = xx.odc.geobox, xx.odc.output_geobox(other)
+    elif op == "views":
+        _ = gb[1:, 1:].extent, gb.pad(2).footprint(crs_arg), gb.zoom_out(2).boundingbox, gb.flipy().extent
+    elif op == "unpickled":
+        _ = gb.extent
+        gb = pickle.loads(pickle.dumps(gb))
+    elif op == "crs-helpers":
+        _ = CRS.utm(0.5, 0.5), CRS.utm(-100.0)
+        _ = gb.crs.transformer_to_crs(CRS(other))(np.array([np.nan, 0.0]), np.array([0.0, np.inf]))
+        _ = gb.crs.valid_region
+    else:
+        raise ValueError(op)
+    return gb
+
+
+def gen_lazy(tier):
+    t = tier == "thorough"
+    reqs = (("res", "auto"), ("res", "fit"), ("shape", 50))
+    srcs = range(len(LAZY_SRC))
+    yield from itertools.product(PREOPS, srcs, DST4, reqs + ((("res", "same"), ("res", ("s", 1.0))) if t else ()),
+                                 ("cog",) + (("to_crs",) if t else ()))
+    yield from itertools.product(PREOPS, srcs, ("utm",) + (("utm-s",) if t else ()), (("res", "auto"),), ("cog",))
+
+
+def run_lazy(case):
+    op, si, dst_enc, req, api = case
+    kind, loc, extent, sshape, orient = LAZY_SRC[si]
+    S = make_src(kind, loc, extent, sshape, orient)
+    crs_arg, want, kw = make_kw(S, loc, dst_enc, req, "default", False, 0.01)
+    other = "epsg:3857" if want != 3857 else "epsg:6933"
+    r = R()
+    gb = apply_preop(op, S.gbox, crs_arg, other)
+    S.gbox = gb
+    what = f"[after {op}] " + call_txt(api, S, crs_arg, kw)
+    g1 = call_api(api, gb, crs_arg, kw)
+    judge(r, S, loc, dst_enc, req, "default", False, 0.01, g1, what)
+    S0 = fresh_instance(S)
+    g0 = call_api(api, S0.gbox, crs_arg, kw)
+    if not same_answer(g1, gb, g0, S0.gbox):
+        r.fail(f"history-dependent:after-{op}:{S.kind}->{dst_enc}:{S.orient}",
+               f"{what} -> {g1!r}{' (the source itself)' if g1 is gb else ''}, but the same request on a new GeoBox object "
+               f"-> {g0!r}{' (the source itself)' if g0 is S0.gbox else ''}")
+    r.outcome = f"lazy:{op}:" + r.outcome.split(":")[0]
+    return r
+
+
 NOEPSG_KINDS = ("sinu*", "laea*", "tmerc*", "aea*", "ea")  # four PROJ strings without an EPSG code + EPSG:3035
 
 
@@ -1208,6 +1691,19 @@ def slices(tier):
           "tol in {0, 1e-3, 0.01, 0.05, 0.3} x {function, GeoBox.to_crs, xarray accessor} x source origin slid pixel by pixel "
           "over one output pixel (output pixel 200-500 x source pixel), each axis separately; containment with the stated "
           "tol and method/accessor == function"),
+        S("odd-rasters", gen_odd, run_odd,
+          "tiny (4.5e-6 deg / 0.5 m) and huge (1 deg / 100 km) pixels, non-square pixels, 2x20000 / 20000x2 / 200x3 rasters, in "
+          "every orientation; origin a whole number of CRS units, 1e-3 either side, half a pixel, an odd fraction"),
+        S("area-limits", gen_limits, run_limits,
+          "lon/lat rasters touching a UTM zone edge, the equator, 84N / 80S, the antimeridian, the Mercator / EASE latitude "
+          "limits, the poles, the whole globe; outside the target's area of use nothing is demanded"),
+        S("spellings", gen_spell, run_spell,
+          "one request in every accepted spelling of crs / source crs / resolution / shape / anchor / tol / round_resolution "
+          "on the function, the method and the xarray accessor: same answer as the plain spelling through the function"),
+        S("lazy-state", gen_lazy, run_lazy,
+          "18 kinds of earlier use of the SAME source GeoBox object (lazy properties, footprints, earlier to_crs calls to "
+          "this / other targets with other options, views, pickling, CRS helpers), then the request: every clause, and the "
+          "same answer as a new object gives"),
         S("entry-points", gen_api, run_case,
           "GeoBox.to_crs, every argument given explicitly, CRS object and integer EPSG as crs="),
         S("xarray", gen_xr, run_xr, "xr_zeros(src).odc.output_geobox(...)"),
